@@ -371,6 +371,41 @@ def check(ctx, rep):
             v = p.value
             cur = isinstance(v, tuple) and v[0] == "elem"
             rep.ob("R-NEXT", "selection leaves the walk only with the job at hand", cur, "returns %s from inside the walk over the job list: the remaining jobs are not considered" % fmt(v), where_of(sel), trace_of(p))
+    # among the waiting jobs the one returned is provably the earliest: for every other waiting job seen on the path
+    # there is a chain of established comparisons  returned.when <= ... <= other.when  (three jobs are needed to
+    # tell a correct running minimum from one that compares against a stale value)
+    ps3, it3 = ctx.paths(sel, rex, depth=2, inline=std_inline, unroll=3, maxpaths=20000)
+    WHEN = R["when"]
+    nmin = 0
+    for p in ps3:
+        if p.status != "return" or not (isinstance(p.value, tuple) and p.value[0] == "elem"):
+            continue
+        lv = [e for e in p.evs("loop") if e.fn is sel]
+        if not any(e.d[0] == "exit" for e in lv):
+            continue  # taken at once (stop-flagged / overdue): handled above
+        v = p.value
+        atoms = p.branch_atoms()
+        waiting = set(t[1] for t, tv in atoms if isinstance(t, tuple) and t[0] == "attr" and t[2] == inflight_field and isinstance(t[1], tuple) and t[1][0] == "elem" and tv is False)
+        le = set()
+        for t, tv in atoms:
+            n = norm_cmp(t, tv)
+            if n and n[0][0] == "attr" and n[2][0] == "attr" and n[0][2] == WHEN and n[2][2] == WHEN and n[1] in ("<", "<="):
+                le.add((n[0][1], n[2][1]))
+        reach = {v}
+        changed = True
+        while changed:
+            changed = False
+            for a, b in le:
+                if a in reach and b not in reach:
+                    reach.add(b)
+                    changed = True
+        others = [o for o in waiting if o != v]
+        if len(others) >= 2:
+            nmin += 1
+        bad = [o for o in others if o not in reach]
+        nm = lambda o: "job#%d" % (o[3] if len(o) > 3 else 1)
+        rep.ob("R-NEXT", "selection returns the earliest of the waiting jobs", not bad, "returns %s although nothing on this path establishes that its due time is not later than that of %s (comparisons made: %s): with three or more jobs waiting the worker can sleep towards the wrong job and start the earliest one late" % (nm(v), ", ".join(nm(o) for o in bad), ["%s.when <= %s.when" % (nm(a), nm(b)) for a, b in sorted(le)]), where_of(sel), trace_of(p))
+    rep.require(nmin >= 1, "job selection: no path with three waiting jobs was enumerated")
     # a walk that has seen a job with no attempt in flight does not come back empty-handed: returning None sends the
     # worker into an untimed wait although a job is waiting for its due time
     for p in ps:
